@@ -1078,6 +1078,8 @@ class Exec(Executor):
                 names = {x.name if isinstance(x, Builtin) else x.cls.name for x in classes}
                 tdn = {TInt: "int", TBool: "bool", TStr: "str"}.get(v.td)
                 return self.ok(smt.lift(tdn in names), st)
+        if name == "tagset.isdisjoint" and len(args) == 2 and all(isinstance(x, SV) and x.td == TTagSet for x in args):
+            return self.ok(SV(TBool, z3.SetIntersect(args[0].z, args[1].z) == smt.EMPTY_TAGS), st)
         if name in ("set", "frozenset"):
             if not args:
                 return self.ok(SV(TTagSet, smt.EMPTY_TAGS, fresh=True), st)
